@@ -765,10 +765,10 @@ def formula_grammar(table):
     percent = Literal('%').suppress()
     weight = Regex("(w((eigh)?t)?|m(ass)?)").suppress()
     volume = Regex("v(ol(ume)?)?").suppress()
-    weight_percent = (percent + weight) | (weight + percent) + space
-    volume_percent = (percent + volume) | (volume + percent) + space
+    weight_percent = ((percent + weight) | (weight + percent)) + space
+    volume_percent = ((percent + volume) | (volume + percent)) + space
     by_weight = (count + weight_percent + mixture
-                 + ZeroOrMore(partsep+count+(weight_percent|percent)+mixture)
+                 + ZeroOrMore(partsep+count+(weight_percent|percent+space)+mixture)
                  + partsep + mixture)
     def convert_by_weight(string, location, tokens):
         """convert mixture by wt% or mass%"""
@@ -785,7 +785,7 @@ def formula_grammar(table):
     mixture_by_weight = by_weight.setParseAction(convert_by_weight)
 
     by_volume = (count + volume_percent + mixture
-                 + ZeroOrMore(partsep+count+(volume_percent|percent)+mixture)
+                 + ZeroOrMore(partsep+count+(volume_percent|percent+space)+mixture)
                  + partsep + mixture)
     def convert_by_volume(string, location, tokens):
         """convert mixture by vol%"""
